@@ -1,4 +1,4 @@
-"""C16 - built-in helpers and aliases: synonymy, recomputation at prediction, guards (R16.1 .. R16.6)."""
+"""C16 - built-in helpers and aliases: synonymy, recomputation at prediction, guards (R16.1 .. R16.8)."""
 import ast
 
 from ..core import (
@@ -52,6 +52,15 @@ def run(prog, rep, tier):
     # ... which also needs the order of the namespace list itself (with_outer_namespace appends, lookups take the first hit):
     # C11's R11.1
     reuse_rule(rep, C11.r11_1, "R16.2", prog)
+    # the values a helper returns (offset(e), I(e), binary(...)) reach the design unchanged in kind: no function of the package
+    # stores real-valued blocks into an integer / borrowed-dtype buffer (a dtype-narrowing store truncates 0.5 to 0)
+    from . import shared
+    shared.dtype_narrowing(prog, rep, "R16.7")
+    # T(x, ref) / S(x, omit): the requested level is the one coded as reference / omitted - for every level value, also the
+    # falsy ones (0, '', False): the contrast obligations of C04's R4.2
+    from . import C04
+    reuse_rule(rep, C04.r4_2, "R16.8", prog, keep=lambda it: it.get("function", "").startswith("formulae.categorical."))
+    rep.floor("R16.8", 6)
     rep.floor("R16.1", 10)
     rep.floor("R16.3", 6)
     rep.floor("R16.4", 5)
